@@ -132,7 +132,8 @@ theorem updateCore_install_spec (env : Env) (cfg : Config) (base) (d : Disk) (sc
     ∃ o out, (Op.update none sc).offer = some o ∧
       (updateCore env cfg base d sc).1.art o.number = some (.file out) ∧
       (∀ m, InSlot (loadPatchesState (updateCore env cfg base d sc).1) m →
-        m = { number := o.number, size := out.length, hash := o.hash, sig := o.sig } ∨ InSlot (loadPatchesState d) m) := by
+        m = { number := o.number, size := out.length, hash := o.hash, sig := o.sig } ∨ InSlot (loadPatchesState d) m) ∧
+      checkHash out o.hash = true := by
   unfold updateCore at hi ⊢
   simp only [] at hi ⊢
   rw [secCopyEvents_disk cfg d hst] at hi ⊢
@@ -144,12 +145,12 @@ theorem updateCore_install_spec (env : Env) (cfg : Config) (base) (d : Disk) (sc
     simp only [hresp] at hi ⊢
     have h2 := rollBackIfNeeded_settled env cfg _ r.rolledBack h1
     have a2 := (slots_rollBackIfNeeded env cfg _ r.rolledBack h1).trans a1
-    rcases afterCheck_cases env cfg base (secClearEvents cfg d) r sc.dl with ⟨hni, _⟩ | ⟨o, stream, b, out, hp, _, _, _, _, _, _, _, e6⟩
+    rcases afterCheck_cases env cfg base (secClearEvents cfg d) r sc.dl with ⟨hni, _⟩ | ⟨o, stream, b, out, hp, _, _, _, _, _, hck, _, e6⟩
     · exact absurd hi hni
     · rw [e6]
       have h3 := shouldInstall_settled env cfg _ o.number h2
       have a3 := (slots_shouldInstall env cfg _ o.number h2).trans a2
-      refine ⟨o, out, by simp [Op.offer, Op.respOf, hresp, hp], ?_, ?_⟩
+      refine ⟨o, out, by simp [Op.offer, Op.respOf, hresp, hp], ?_, ?_, hck⟩
       · rw [art_secInstall cfg _ o out h3]; exact art_addPatch_self _ _ _ _ _
       · intro m hm
         rcases slots_secInstall cfg _ o out h3 m hm with h | h
@@ -246,7 +247,7 @@ theorem C01_holds (env : Env) (libs : List (String × Bytes)) (ops : List Op)
       intro x hx; simp only [G01.next]
       cases installedBy op (postView env w op) with
       | none => exact hx
-      | some n => simp only; cases (postView env w op).fileOf n <;> simp [hx]
+      | some n => simp only; split <;> (try split) <;> simp [hx]
     -- provenance after the step
     have hpost : ProvD (step env w op).1.disk (G01.next g op (postView env w op)).sizes := by
       cases hen : entersWith w.config op with
@@ -278,7 +279,7 @@ theorem C01_holds (env : Env) (libs : List (String × Bytes)) (ops : List Op)
             (updateCore env c (w.base c) (normDisk w.disk c.version) sc).2.1 = .installed
         · obtain ⟨chan, sc, rfl, hi⟩ := hinst
           have hc : w.config = some c := by simpa [entersWith] using hen
-          obtain ⟨o, out, ho, hart, hslots⟩ := updateCore_install_spec env c (w.base c) _ sc hst hi
+          obtain ⟨o, out, ho, hart, hslots, hck⟩ := updateCore_install_spec env c (w.base c) _ sc hst hi
           have hib : installedBy (.update chan sc) (postView env w (.update chan sc)) = some o.number := by
             rw [installedBy_update env w c hc, updateCore_norm env c (w.base c) w.disk sc, hi]
             simp only [if_true]
@@ -291,7 +292,8 @@ theorem C01_holds (env : Env) (libs : List (String × Bytes)) (ops : List Op)
             have hbase : World.base { disk := normDisk w.disk c.version, config := w.config, libs := w.libs } c = w.base c := rfl
             rw [hbase, hart]
           have hsz : (G01.next g (.update chan sc) (postView env w (.update chan sc))).sizes = (o.number, out.length) :: g.sizes := by
-            simp [G01.next, hib, hfile]
+            have hoff : (Op.update chan sc).offer = some o := ho
+            simp [G01.next, hib, hfile, hoff, hck]
           rw [hsz]
           intro m hm
           rcases hslots m hm with h | h
